@@ -36,10 +36,28 @@ Definition eval05 (c : case05) : verdict :=
       | _, _, _ => false            (* panic / hang inside the contract, or an undecodable trace *)
       end
     else true in
+  (* correspondence: the machine, started as arc_swap starts, accepts every recorded event and
+     ends (outer loop left) in the implementation's final partition and Metadata; the f64
+     headroom division agrees with the exact integer quotient the caps theorem is stated for *)
   let corr :=
-    match c_impl c with
-    | IOk p => Nat.eqb (length (c_md c)) 9 && (md 8%nat =? Z.of_nat ipt)
-    | _ => true
+    match c_impl c, cap, tr with
+    | IOk p, Some cp, Some evs =>
+      let cf := config_of headroom_f64 g (c_vw c) (c_p0 c) (c_threads c) cp in
+      match init_state cf (c_p0 c) with
+      | None => false
+      | Some st0 =>
+        match replay cf st0 evs with
+        | None => false
+        | Some st =>
+          g_fin st && list_eqb Nat.eqb (g_part st) (map N.to_nat p)
+          && list_eqb Z.eqb (md_list (g_md st) ++ [Z.of_nat ipt]) (c_md c)
+          && list_eqb Z.eqb (g_pw st) (loads (c_vw c) (g_part st) k)
+          && forallb (fun x => match headroom_f64 (cp - x) tc, headroom_quot (cp - x) tc with
+                               | Some a, Some b => a =? b | _, _ => false end) (g_pw st)
+        end
+      end
+    | IOk _, _, _ => false
+    | _, _, _ => true
     end in
   let cls :=
     match c_impl c with
